@@ -123,9 +123,13 @@ func (ec *EvalCtx) describeTarget(tgt string) []tgtDesc {
 			}
 			return ec.leafDescs(p, p.Elem, false)
 		}
+		if e.Name == "$open" {
+			ch := ec.evalTerm(e.Args[0])
+			return []tgtDesc{{key: st.chanKey("open"), base: &ch}}
+		}
 		if e.Name == "$chan" {
 			ch := ec.evalTerm(e.Args[0])
-			return []tgtDesc{{key: st.chanKey("len"), base: &ch, chanLen: true}}
+			return []tgtDesc{{key: st.chanKey("sent"), base: &ch}, {key: st.chanKey("rcvd"), base: &ch, chanLen: true}, {key: "CHV:<", prefix: true}}
 		}
 	case "ident":
 		if v, ok := ec.names[e.Name]; ok {
@@ -212,10 +216,10 @@ func (ec *EvalCtx) havocTarget(tgt string) {
 				continue
 			}
 			nv := st.declare("mv", es)
-			if d.chanLen {
-				st.assume(tAnd(tLe(tInt(0), nv), tLe(nv, st.chanGet(*d.base, "cap"))))
-			}
 			st.set(d.key, tStore(arr, *d.base, nv))
+			if d.chanLen {
+				st.chanWF(*d.base)
+			}
 		}
 	}
 }
